@@ -177,23 +177,42 @@ theorem special_script_fault (inner : Inner) (mode : Mode) (c : Nat) (name : Str
 theorem fault_mono_of_small {s s' : Sys} (h : Small s s') (hf : s.fault.isSome = true) : s'.fault.isSome = true :=
   h.fault hf
 
-/-- **A queued command run by EXEC returns `NoResponse` only if it is a script command**, and then the model has
-flagged the run (`fault`): the queue holds no EXEC and no (P)SUBSCRIBE / (P)UNSUBSCRIBE, and a blocking pop answers at
-once inside EXEC. -/
+/-- `_run_command` returned `NoResponse` -/
+def isNoneO : Option Reply → Prop
+  | none => True
+  | some _ => False
+
+theorem isNoneO_iff {r : Option Reply} : isNoneO r ↔ r = none := by
+  cases r <;> simp [isNoneO]
+
+/-- a script command always has a reply, issued by the client or run by EXEC -/
+theorem runScriptCmd_reply (mode : Mode) (c : Nat) (sig : Sig) (raw : List Bytes) (fs : Bool) :
+    Never isNoneO (runScriptCmd mode c sig raw fs) := by
+  unfold runScriptCmd; never
+
+/-- **A queued command run by EXEC never returns `NoResponse`**: the queue holds no EXEC and no (P)SUBSCRIBE /
+(P)UNSUBSCRIBE, a blocking pop answers at once inside EXEC, and a script command is run by the direct script runner,
+which always answers. -/
 theorem runInner_none (mode : Mode) (c : Nat) (sig : Sig) (raw : List Bytes) (s : Sys)
-    (hin : (s.conn c).inTx = true) (hne : sig.name ∉ gated)
-    (h : (runInner mode c sig raw s).1 = none) :
-    sig.name ∈ scriptNames ∧ (runInner mode c sig raw s).2.fault.isSome = true := by
-  unfold runInner at h ⊢
+    (hin : (s.conn c).inTx = true) (hne : sig.name ∉ gated) :
+    (runInner mode c sig raw s).1 ≠ none := by
+  intro h
+  cases hsn : scriptNames.contains sig.name with
+  | true =>
+    rw [runInner_script mode c sig raw hsn] at h
+    exact runScriptCmd_reply mode c sig raw false s (isNoneO_iff.2 h)
+  | false =>
+  have hsc : sig.name ∉ scriptNames := scriptNames_contains_false_iff.1 hsn
+  rw [runInner_not_script mode c sig raw hsn] at h
   cases hr : s.refuses c sig with
   | true => rw [runWith_refused _ mode c sig raw false hr] at h; cases h
   | false =>
   cases hreg : Cmd.regular sig.name with
   | some body => rw [runWith_regular_run _ mode c sig raw false hreg s hr] at h; cases h
   | none =>
-    rw [runWith_special_run _ mode c sig raw false s hreg hr] at h ⊢
-    dsimp only at h ⊢
-    generalize sig.apply raw ⟨s.srv.dbs.getD (s.conn c).db [], s.srv.time⟩ = ap at h ⊢
+    rw [runWith_special_run _ mode c sig raw false s hreg hr] at h
+    dsimp only at h
+    generalize sig.apply raw ⟨s.srv.dbs.getD (s.conn c).db [], s.srv.time⟩ = ap at h
     obtain ⟨db', res⟩ := ap
     cases res with
     | error e => cases h
@@ -201,29 +220,21 @@ theorem runInner_none (mode : Mode) (c : Nat) (sig : Sig) (raw : List Bytes) (s 
       cases a with
       | short r => cases h
       | ok args cis =>
-        dsimp only at h ⊢
+        dsimp only at h
         cases hg : runGate sig false (decide ((s.conn c).pubsub > 0)) with
         | some e => rw [hg] at h; cases h
         | none =>
           rw [hg] at h
-          dsimp only at h ⊢
+          dsimp only at h
           obtain ⟨cis', hv, hst⟩ := afterSpecial_none _ _ _ _ h
-          rw [hst]
           generalize hs1 : ({ s with srv := { s.srv with dbs := s.srv.dbs.set (s.conn c).db db'.dict } } : Sys) = s1
-            at hv ⊢
+            at hv
           have hin1 : (s1.conn c).inTx = true := by rw [← hs1]; exact hin
           have hnone : noneS (special (fun _ _ => do fault "nested exec"; return none) mode c sig.name args cis s1).1 :=
             noneS_iff.2 ⟨cis', hv⟩
-          have hsc : sig.name ∈ scriptNames := by
-            by_cases hsc : sig.name ∈ scriptNames
-            · exact hsc
-            · exfalso
-              by_cases hb : sig.name ∈ blockingNames
-              · exact special_blocking_inTx _ mode c sig.name args cis s1 hb hin1 hnone
-              · exact special_never_none _ mode c sig.name args cis hne hsc hb s1 hnone
-          refine ⟨hsc, ?_⟩
-          exact (sm_writebackAll (s0 := (special _ mode c sig.name args cis s1).2) _ cis' _ (Small.refl _)).fault
-            (special_script_fault _ mode c sig.name args cis s1 hsc)
+          by_cases hb : sig.name ∈ blockingNames
+          · exact special_blocking_inTx _ mode c sig.name args cis s1 hb hin1 hnone
+          · exact special_never_none _ mode c sig.name args cis hne hsc hb s1 hnone
 
 /-! ## 2. EXEC -/
 
@@ -238,12 +249,12 @@ theorem queueStep_spec (mode : Mode) (c : Nat) (a : String × List Bytes) (s : S
     (ha : a.1 ∉ gated) :
     Small s (queueStep (runInner mode c) c a s).2 ∧
     ((queueStep (runInner mode c) c a s).1 = none →
-      (a.1 ∈ scriptNames ∨ SigTable.find a.1 = none) ∧ (queueStep (runInner mode c) c a s).2.fault.isSome = true) := by
+      SigTable.find a.1 = none ∧ (queueStep (runInner mode c) c a s).2.fault.isSome = true) := by
   unfold queueStep
   cases hf : SigTable.find a.1 with
   | none =>
     simp only [bind, StateT.bind, pure, StateT.pure]
-    exact ⟨sm_fault _ s (Small.refl s), fun _ => ⟨.inr (by first | exact hf | rfl | trivial), fault_isSome_after _ s⟩⟩
+    exact ⟨sm_fault _ s (Small.refl s), fun _ => ⟨(by first | exact hf | rfl | trivial), fault_isSome_after _ s⟩⟩
   | some sig =>
     have hn : sig.name = a.1 := SigTable.find_name hf
     simp only [bind, StateT.bind, pure, StateT.pure, modifyConn_run]
@@ -258,16 +269,15 @@ theorem queueStep_spec (mode : Mode) (c : Nat) (a : String × List Bytes) (s : S
     obtain ⟨r1, s2⟩ := r
     intro h2 hnone
     refine ⟨h2.trans ⟨ConnsLe.updConn s2 c _ (fun _ => ⟨rfl, rfl, rfl, .inl rfl⟩), id, rfl, OutLe.refl _⟩, fun h => ?_⟩
-    obtain ⟨hs, hfl⟩ := hnone h
-    exact ⟨.inl (hn ▸ hs), hfl⟩
+    exact absurd h hnone
 
-/-- **the queue, run by EXEC**: a small step; a `NoResponse` among the results comes from a script command (or an
-unknown name) in the queue, and the model has then flagged the run -/
+/-- **the queue, run by EXEC**: a small step; a `NoResponse` among the results comes from an unknown name in the queue
+(no reachable queue holds one: `TxKnown`), and the model has then flagged the run -/
 theorem runQueue_spec (mode : Mode) (c : Nat) (q : List (String × List Bytes)) (s : Sys) (hc : s.HasConn c)
     (hq : ∀ a ∈ q, a.1 ∉ gated) :
     Small s (runQueue (runInner mode c) c q s).2 ∧
     ((runQueue (runInner mode c) c q s).1.any Option.isNone = true →
-      (∃ a ∈ q, a.1 ∈ scriptNames ∨ SigTable.find a.1 = none) ∧
+      (∃ a ∈ q, SigTable.find a.1 = none) ∧
         (runQueue (runInner mode c) c q s).2.fault.isSome = true) := by
   induction q generalizing s with
   | nil => exact ⟨Small.refl s, fun h => by cases h⟩
@@ -309,14 +319,14 @@ theorem Small'.trans {a b c : Sys} (h1 : Small' a b) (h2 : Small' b c) : Small' 
 
 /-- **EXEC.**  On a connection whose queue holds no EXEC and no (P)SUBSCRIBE / (P)UNSUBSCRIBE, EXEC is a small step
 apart from `crashed`; and either `crashed` is untouched and EXEC has a reply, or EXEC took the assertion path — then
-the queue held a script command (or an unknown name) and the model has flagged the run (`fault`). -/
+the queue held an unknown name (no reachable queue does) and the model has flagged the run (`fault`). -/
 theorem execCmd_spec (mode : Mode) (c : Nat) (cis : List CI) (s : Sys)
     (hq : ∀ q, (s.conn c).tx = some q → ∀ a ∈ q, a.1 ∉ gated) :
     Small' s (execCmd (runInner mode c) c cis s).2 ∧
     (((execCmd (runInner mode c) c cis s).2.crashed = s.crashed ∧ ¬ noneS (execCmd (runInner mode c) c cis s).1) ∨
      ((execCmd (runInner mode c) c cis s).2.crashed = some "AssertionError" ∧
       (execCmd (runInner mode c) c cis s).2.fault.isSome = true ∧
-      ∃ q, (s.conn c).tx = some q ∧ ∃ a ∈ q, a.1 ∈ scriptNames ∨ SigTable.find a.1 = none)) := by
+      ∃ q, (s.conn c).tx = some q ∧ ∃ a ∈ q, SigTable.find a.1 = none)) := by
   have hupd2 : ∀ (t : Sys) (f g : Conn → Conn), (∀ x, ConnStep x (f x)) → (∀ x, ConnStep x (g x)) →
       Small t ((t.updConn c f).updConn c g) :=
     fun t f g hf hg => Small.trans ⟨ConnsLe.updConn t c f hf, id, rfl, OutLe.refl _⟩
@@ -529,14 +539,14 @@ theorem small_of_frame {s s1 : Sys} (h1 : s1.srv.conns = s.srv.conns) (h2 : s1.f
 theorem conn_of_conns_eq' {s s1 : Sys} (h : s1.srv.conns = s.srv.conns) (c : Nat) : s1.conn c = s.conn c := by
   simp only [Sys.conn_def, h]
 
-/-- the assertion path of EXEC on connection `c` in state `s`: the queue holds a script command or an unknown name -/
+/-- the assertion path of EXEC on connection `c` in state `s`: the queue holds an unknown name -/
 def BadQueue (s : Sys) (c : Nat) : Prop :=
-  ∃ q, (s.conn c).tx = some q ∧ ∃ a ∈ q, a.1 ∈ scriptNames ∨ SigTable.find a.1 = none
+  ∃ q, (s.conn c).tx = some q ∧ ∃ a ∈ q, SigTable.find a.1 = none
 
 /-- **`_run_command` of any client command**, on a connection whose queue holds no gated name: connection ids and
 `dead` flags are kept, queues are kept or reset, `fault` is never cleared; `crashed` is untouched — except when the
-command is EXEC and its queue holds a script command (or an unknown name): then the assertion path is taken and the
-model has flagged the run. -/
+command is EXEC and its queue holds an unknown name (impossible from a state with well-formed queues): then the
+assertion path is taken and the model has flagged the run. -/
 theorem runCommand_spec (mode : Mode) (c : Nat) (sig : Sig) (raw : List Bytes) (s : Sys)
     (hq : ∀ q, (s.conn c).tx = some q → ∀ a ∈ q, a.1 ∉ gated) :
     Core s (runCommand mode c sig raw false s).2 ∧
@@ -646,22 +656,21 @@ theorem small_prologue (s : Sys) : Small s s.prologue := by
   have h2 := sm_nextClock (s0 := s) _ h1
   exact h2.frame rfl rfl rfl rfl
 
-/-- the request is an EXEC whose queue holds a script command (the one thing the model does not follow) -/
-def ExecOfScript (s : Sys) (c : Nat) (fields : List Bytes) : Prop :=
-  ∃ nameB args sig q, fields = nameB :: args ∧ lookupSig nameB = some sig ∧ sig.name = "exec" ∧
-    (s.conn c).tx = some q ∧ ∃ a ∈ q, a.1 ∈ scriptNames
+theorem TxWf.not_badQueue {s : Sys} (h : TxWf s) (c : Nat) : ¬ BadQueue s c := by
+  rintro ⟨q, hq, a, ha, hbad⟩
+  obtain ⟨sg, hsg⟩ := (TxAll.conn h c hq a ha).2.2
+  rw [hsg] at hbad; cases hbad
 
 /-- what one request does to the invariants -/
 structure CmdFacts (s s' : Sys) (c : Nat) (fields : List Bytes) : Prop where
   wf : TxWf s'
   fault : s.fault.isSome = true → s'.fault.isSome = true
-  crashed : s'.crashed = s.crashed ∨
-    (s'.crashed = some "AssertionError" ∧ s'.fault.isSome = true ∧ ExecOfScript s c fields)
+  crashed : s'.crashed = s.crashed
   alive : AllAlive s → s'.crashed = none → AllAlive s'
 
 theorem cmdFacts_of_core {s s' : Sys} {c : Nat} {fields : List Bytes} (hwf : TxWf s) (h : Core s s')
     (hcr : s'.crashed = s.crashed) : CmdFacts s s' c fields :=
-  ⟨hwf.le h.conns, h.fault, .inl hcr, fun ha _ => ha.le h.conns⟩
+  ⟨hwf.le h.conns, h.fault, hcr, fun ha _ => ha.le h.conns⟩
 
 theorem core_updConn (s : Sys) (c : Nat) (f : Conn → Conn) (hf : ∀ x, ConnStep x (f x)) : Core s (s.updConn c f) :=
   ⟨ConnsLe.updConn s c f hf, id⟩
@@ -682,8 +691,8 @@ theorem discardTx_step (x : Conn) : ConnStep x (discardTx x) := ⟨rfl, rfl, rfl
 
 /-- **One request through `_process_command`, from a state with well-formed queues.**  The queues stay well-formed
 (a (P)SUBSCRIBE / (P)UNSUBSCRIBE is refused, everything else appended is `QOk`), `fault` is never cleared, `crashed`
-is untouched unless the request is an EXEC whose queue holds a script command (assertion path, `fault` set), and no
-connection dies unless `crashed` is set. -/
+is untouched - for EVERY request, an EXEC whose queue holds script commands included -, and no connection dies
+unless `crashed` is set. -/
 theorem processCommand_spec (mode : Mode) (c : Nat) (fields : List Bytes) (s : Sys) (hwf : TxWf s) :
     CmdFacts s (processCommand mode c fields s).2 c fields := by
   cases fields with
@@ -715,7 +724,7 @@ theorem processCommand_spec (mode : Mode) (c : Nat) (fields : List Bytes) (s : S
             have hok : QOk sig.name := by
               simp only [Bool.and_eq_true, Bool.not_eq_true'] at hq
               exact ⟨by simpa using hnm, by simpa using hq.2, sig, by rw [hname]; exact hfind⟩
-            refine ⟨?_, ?_, .inl ?_, ?_⟩
+            refine ⟨?_, ?_, ?_, ?_⟩
             · refine TxAll.emitS (TxAll.updConn hwfp c _ (fun x q hq' a ha' => ?_)) c _
               cases hx : x.tx with
               | none => simp only [hx, Option.map_none] at hq'; cases hq'
@@ -742,23 +751,16 @@ theorem processCommand_spec (mode : Mode) (c : Nat) (fields : List Bytes) (s : S
           obtain ⟨r1, s2⟩ := r
           intro hcore hcr
           dsimp only at hcore hcr ⊢
-          have hbad : BadQueue s.prologue c → sig.name = "exec" → ExecOfScript s c (nameB :: args) := by
-            rintro ⟨q, hq2, a, haq, hbad⟩ hex
-            refine ⟨nameB, args, sig, q, rfl, hl, hex, by rw [← prologue_tx]; exact hq2, a, haq, ?_⟩
-            rcases hbad with h | h
+          have hcr' : s2.crashed = s.prologue.crashed := by
+            rcases hcr with h | ⟨_, _, _, h4⟩
             · exact h
-            · obtain ⟨sg, hsg⟩ := (TxAll.conn hwfp c hq2 a haq).2.2
-              rw [hsg] at h; cases h
+            · exact absurd h4 (hwfp.not_badQueue c)
           -- the state after the reply has been emitted
           have key : ∀ s3 : Sys, Core s2 s3 → s3.crashed = s2.crashed →
               CmdFacts s (if s3.crashed.isSome then s3.updConn c markDead else s3) c (nameB :: args) := by
             intro s3 h23 hc3
             have hc : Core s s3 := hp.core.trans (hcore.trans h23)
-            have hcr3 : s3.crashed = s.crashed ∨
-                (s3.crashed = some "AssertionError" ∧ s3.fault.isSome = true ∧ ExecOfScript s c (nameB :: args)) := by
-              rcases hcr with h | ⟨h1, h2, h3, h4⟩
-              · exact .inl (hc3.trans (h.trans hp.crashed))
-              · exact .inr ⟨hc3.trans h2, h23.fault h3, hbad h4 h1⟩
+            have hcr3 : s3.crashed = s.crashed := hc3.trans (hcr'.trans hp.crashed)
             split
             · rename_i hsome
               refine ⟨TxAll.updConn (hwf.le hc.conns) c _ (fun x q hq' a ha' => .inl ⟨q, hq', ha'⟩), hc.fault, hcr3, ?_⟩
@@ -784,32 +786,19 @@ theorem processCommand_spec (mode : Mode) (c : Nat) (fields : List Bytes) (s : S
 
 /-! ## 5. does the command have a reply? (for the reply count) -/
 
-/-- `_run_command` returned `NoResponse` -/
-def isNoneO : Option Reply → Prop
-  | none => True
-  | some _ => False
-
-theorem isNoneO_iff {r : Option Reply} : isNoneO r ↔ r = none := by
-  cases r <;> simp [isNoneO]
-
 theorem ConnsLe.closed {s s' : Sys} (h : ConnsLe s s') (c : Nat) : (s'.conn c).closed = (s.conn c).closed :=
   (h.conn c).2.2.1
 
-/-- a script command issued by the client always has a reply -/
-theorem runScriptCmd_reply (mode : Mode) (c : Nat) (sig : Sig) (raw : List Bytes) (fs : Bool) :
-    Never isNoneO (runScriptCmd mode c sig raw fs) := by
-  unfold runScriptCmd; never
-
 /-- **which commands, run at once, have no reply of their own**: apart from (P)SUBSCRIBE / (P)UNSUBSCRIBE (whose
 replies are their acknowledgements) only a blocking pop (it parks; the wake-up / time-out event answers) and an EXEC
-that takes the assertion path.  And what the command pushes on the reply list besides its reply are pub/sub messages. -/
+that takes the assertion path (its queue holds an unknown name: `BadQueue`, impossible from well-formed queues).  And what the command pushes on the reply list besides its reply are pub/sub messages. -/
 theorem runCommand_reply (mode : Mode) (c : Nat) (sig : Sig) (raw : List Bytes) (s : Sys)
     (hsub : sig.name ∉ SigTable.notInMulti)
     (hq : ∀ q, (s.conn c).tx = some q → ∀ a ∈ q, a.1 ∉ gated) :
     Small' s (runCommand mode c sig raw false s).2 ∧
     (isNoneO (runCommand mode c sig raw false s).1 →
       sig.name ∈ blockingNames ∨
-      (sig.name = "exec" ∧ (runCommand mode c sig raw false s).2.crashed = some "AssertionError")) := by
+      (sig.name = "exec" ∧ (runCommand mode c sig raw false s).2.crashed = some "AssertionError" ∧ BadQueue s c)) := by
   by_cases hsc : sig.name ∈ scriptNames
   · have hg : sig.name ∉ gated := by
       intro hg
@@ -841,7 +830,7 @@ theorem runCommand_reply (mode : Mode) (c : Nat) (sig : Sig) (raw : List Bytes) 
     | none =>
       refine runWith_special_elim _ mode c sig raw false s hreg
         (fun r => Small' s r.2 ∧ (isNoneO r.1 → sig.name ∈ blockingNames ∨
-          (sig.name = "exec" ∧ r.2.crashed = some "AssertionError"))) ?_ ?_
+          (sig.name = "exec" ∧ r.2.crashed = some "AssertionError" ∧ BadQueue s c))) ?_ ?_
       · intro r s1 e1 e2 e3 e4
         exact ⟨(small_of_frame e1 e2 e3 e4).weaken, fun h => h.elim⟩
       · intro args cis s1 e1 e2 e3 e4 _
@@ -854,9 +843,9 @@ theorem runCommand_reply (mode : Mode) (c : Nat) (sig : Sig) (raw : List Bytes) 
           obtain ⟨hx, hcr⟩ := execCmd_spec mode c cis s1 hq1
           refine ⟨hs1.weaken.trans (hx.trans ht.weaken), fun h => ?_⟩
           have hn := hnone.1 (isNoneO_iff.1 h)
-          rcases hcr with ⟨_, hnn⟩ | ⟨hcr, _, _⟩
+          rcases hcr with ⟨_, hnn⟩ | ⟨hcr, _, q, hq2, hbad⟩
           · exact absurd hn hnn
-          · exact .inr ⟨hex, ht.crashed.trans hcr⟩
+          · exact .inr ⟨hex, ht.crashed.trans hcr, q, by rw [← conn_of_conns_eq' e1]; exact hq2, hbad⟩
         · have hg : sig.name ∉ gated := by
             simp only [gated, List.mem_cons, not_or]
             exact ⟨hex, hsub⟩
@@ -876,19 +865,18 @@ theorem afterRun_crashed (c : Nat) (r : Option Reply × Sys) : (afterRun c r).cr
 
 /-- **A command run at once, other than (P)SUBSCRIBE / (P)UNSUBSCRIBE, on an open connection**: the reply list grows
 by exactly one reply to `c` on top of the pub/sub messages delivered meanwhile (to whatever connections) — or by the
-messages alone, and then the command is a blocking pop (it parked) or an EXEC that took the assertion path. -/
+messages alone, and then the command is a blocking pop (it parked). -/
 theorem processCommand_reply (mode : Mode) (c : Nat) (nameB : Bytes) (args : List Bytes) (s : Sys) (hwf : TxWf s)
     (hcl : (s.conn c).closed = false) {sig : Sig} (hl : lookupSig nameB = some sig)
     (ha : sig.checkArity args.length = true)
     (hq : ((s.conn c).tx.isSome && !SigTable.notQueued.contains sig.name) = false)
     (hsub : sig.name ∉ SigTable.notInMulti) :
     (∃ r D, (processCommand mode c (nameB :: args) s).2.out = (c, r) :: D ++ s.out ∧ ∀ p ∈ D, IsMsg p.2) ∨
-    ((sig.name ∈ blockingNames ∨
-        (sig.name = "exec" ∧ (processCommand mode c (nameB :: args) s).2.crashed = some "AssertionError")) ∧
+    (sig.name ∈ blockingNames ∧
       ∃ D, (processCommand mode c (nameB :: args) s).2.out = D ++ s.out ∧ ∀ p ∈ D, IsMsg p.2) := by
   have hp := small_prologue s
   have hwfp : TxWf s.prologue := hwf.le hp.conns
-  rw [pc_run mode c nameB args s hl ha hq, afterRun_out, afterRun_crashed]
+  rw [pc_run mode c nameB args s hl ha hq, afterRun_out]
   obtain ⟨hsm, hnone⟩ := runCommand_reply mode c sig args s.prologue hsub (hwfp.queue_not_gated c)
   revert hsm hnone
   generalize runCommand mode c sig args false s.prologue = r
@@ -906,6 +894,8 @@ theorem processCommand_reply (mode : Mode) (c : Nat) (nameB : Bytes) (args : Lis
     simp only [Sys.emitS_out, hc2, Bool.false_eq_true, if_false, hD, List.cons_append]
   | none =>
     right
-    exact ⟨hnone trivial, D, hD, hmsg⟩
+    rcases hnone trivial with hb | ⟨_, _, hbad⟩
+    · exact ⟨hb, D, hD, hmsg⟩
+    · exact absurd hbad (hwfp.not_badQueue c)
 
 end FR.C04k
